@@ -1,6 +1,6 @@
 """Which units decide which property (DESIGN.md sections 1, 5)."""
 
-VERUS_UNITS = ['U-FMT', 'U-REACH', 'U-COMPACTAS', 'U-SANITY', 'U-RESOLVE', 'U-CONTAINS']
+VERUS_UNITS = ['U-FMT', 'U-REACH', 'U-COMPACTAS', 'U-SANITY', 'U-RESOLVE', 'U-CONTAINS', 'U-CALLS']
 
 PROPS = {
     'C15': {
@@ -36,14 +36,14 @@ PROPS = {
     },
     'C10': {
         'level': 'proof',
-        'verus': ['U-SANITY', 'U-RESOLVE'],
+        'verus': ['U-SANITY', 'U-RESOLVE', 'U-CALLS'],
         'kani': ['sanity_pass_upto4'],
         'trusted_base': ['Verus 0.2026.09.13, Z3, rustc 1.98.1'],
         'assumptions': [
             'sanity_pass: registry has at most 2^32 entries (the `idx as u32` truncation made explicit)',
         ],
         'not_covered': [
-            'that generate_types_mod and ensure_unique_type_paths call sanity_pass first and propagate its error (one `?` each, inside functions out of reach)',
+            'everything generate_types_mod and ensure_unique_type_paths do AFTER their sanity_pass(..)? line (abstracted by rule R8)',
             'mixed named/unnamed fields check (create_composite_ir_kind), compact / decoded-bits path presence (resolve_type_path_recurse): reach syn/proc_macro2',
             'propagation of TypeNotFound through resolve_type_path_recurse',
             '"never panics on well-formed registries": whole-program statement over token-producing functions',
@@ -52,7 +52,7 @@ PROPS = {
     'C13': {
         'level': 'proof',
         'verus': ['U-FMT'],
-        'kani': ['primnames_table'],
+        'kani': ['primnames_table', 'primnames_in_type_name'],
         'trusted_base': [
             'Verus 0.2026.09.13, Z3, rustc 1.98.1',
             'PeekChars shim = peekmore 1.3.0 (3 external_body contracts); SmallVec as Vec; &str <= isize::MAX bytes',
